@@ -1131,7 +1131,14 @@ KaCas(w, h, nx, ok) ==
   /\ ok = Flag(gh.kfree = h)
   /\ \E t \in D : At(w, t, "kc2") /\ th[t].pc.y = h /\ th[t].pc.z = nx
         /\ th' = SetPc(t, IF ok = 1 THEN [th[t].pc EXCEPT !.k = "kc8"] ELSE P("kc0", th[t].pc.x, 0, 0))
-        /\ gh' = IF ok = 1 THEN [gh EXCEPT !.kfree = nx, !.knext[h] = -2, !.kdt[h] = th[t].pc.x, !.klive = @ \cup {h}] ELSE gh
+        \* a key that becomes live while a thread is terminating (possible for long when a destructor suspends): what that
+        \* thread still holds under the index (values persist by index) may or may not be passed to the new destructor,
+        \* depending on whether the termination loop has passed the index already
+        /\ gh' = IF ok = 1 THEN [gh EXCEPT !.kfree = nx, !.knext[h] = -2, !.kdt[h] = th[t].pc.x, !.klive = @ \cup {h},
+                                          !.kopt = [d \in D |-> IF Finning(d) /\ th[t].pc.x # 0
+                                                                 THEN gh.kopt[d] \cup {<<th[t].pc.x, p[2]>> : p \in {q \in gh.kval[d] : q[1] = h}}
+                                                                 ELSE gh.kopt[d]]]
+                  ELSE gh
   \* C10: keys handed out are pairwise distinct while live
   /\ bad' = IF ok = 1 /\ h \in gh.klive THEN Fail("C10: key creation handed out a key that is still live") ELSE bad
   /\ UNCHANGED <<cur, got, cb, runq, ledger, tg, mx, sq, ob>>
